@@ -430,6 +430,9 @@ func (g *G) result(meth *m.Method) {
 	t := g.t
 	h := meth.HTTP
 	rk := rapid.IntRange(0, 11).Draw(t, "resultkind")
+	if g.p.RespHeavy && rk >= 8 && len(g.resultTypes()) > 0 {
+		rk = 2
+	}
 	switch {
 	case rk == 0:
 		// no result: 204 by default, or an explicit empty 200/202
@@ -506,14 +509,18 @@ func (g *G) mapObjectResult(meth *m.Method) {
 			isResultType = true
 		}
 	}
-	if rapid.IntRange(0, 3).Draw(t, "defaultresp") == 0 {
+	if !g.p.RespHeavy && rapid.IntRange(0, 3).Draw(t, "defaultresp") == 0 || g.p.RespHeavy && rapid.IntRange(0, 7).Draw(t, "defaultresp2") == 0 {
 		return // default response: 200, everything in the body
 	}
 	r := &m.Response{Status: rapid.SampledFrom(resultStatuses).Draw(t, "status")}
 	used := map[string]bool{}
 	var bodyFields []string
+	recursiveResult := meth.Result.Type.Kind == m.User && isRecursiveType(g.d, meth.Result.Type.User)
 	for _, f := range fields {
 		_, _, canHeader, canCookie := g.mappable(f.Attr)
+		if recursiveResult && g.avoid("C03-recursive-result-header-attr-lost-in-nested") {
+			canHeader, canCookie = false, false
+		}
 		// a response header/cookie attribute of a result type must exist in all views
 		if isResultType {
 			ut := g.d.TypeByName(meth.Result.Type.User)
@@ -540,6 +547,9 @@ func (g *G) mapObjectResult(meth *m.Method) {
 		}
 		if g.p.RespHeaders && canCookie && g.d.Underlying(f.Attr) == m.String {
 			opts = append(opts, "cookie")
+			if g.p.RespHeavy {
+				opts = append(opts, "cookie")
+			}
 		}
 		switch rapid.SampledFrom(opts).Draw(t, "rloc:"+f.Name) {
 		case "header":
@@ -565,7 +575,7 @@ func (g *G) mapObjectResult(meth *m.Method) {
 				tagAttrs = append(tagAttrs, f)
 			}
 		}
-		if len(tagAttrs) > 0 && rapid.IntRange(0, 2).Draw(t, "tagged") == 0 {
+		if len(tagAttrs) > 0 && (g.p.RespHeavy || rapid.IntRange(0, 2).Draw(t, "tagged") == 0) {
 			f := tagAttrs[rapid.IntRange(0, len(tagAttrs)-1).Draw(t, "tagattr")]
 			n := rapid.IntRange(1, 2).Draw(t, "ntags")
 			statuses := []int{201, 202, 206, 200}
@@ -636,4 +646,44 @@ func cookieSafe(s string) bool {
 		}
 	}
 	return true
+}
+
+// isRecursiveType reports whether the named user type refers to itself.
+func isRecursiveType(d *m.Design, name string) bool {
+	ut := d.TypeByName(name)
+	if ut == nil || ut.Attr == nil {
+		return false
+	}
+	seen := map[string]bool{}
+	var walk func(t *m.Type) bool
+	walk = func(t *m.Type) bool {
+		if t == nil {
+			return false
+		}
+		switch t.Kind {
+		case m.User:
+			if t.User == name {
+				return true
+			}
+			if seen[t.User] {
+				return false
+			}
+			seen[t.User] = true
+			if u := d.TypeByName(t.User); u != nil && u.Attr != nil {
+				return walk(u.Attr.Type)
+			}
+		case m.Array:
+			return walk(t.Elem.Type)
+		case m.Map:
+			return walk(t.Val.Type) || walk(t.Key.Type)
+		case m.Object, m.Union:
+			for _, f := range t.Fields {
+				if walk(f.Attr.Type) {
+					return true
+				}
+			}
+		}
+		return false
+	}
+	return walk(ut.Attr.Type)
 }
